@@ -15,7 +15,7 @@ func init() {
 
 func runC04(p *Prog, r *Report) {
 	queuePops(p, r, "C04.18/queue-pops", func(rel string) bool { return rel == "protocol/req" })
-	r.Floor("C04.18/queue-pops", "queue_pop_sites", 2)
+	r.Floor("C04.18/queue-pops", "queue_pop_sites", 1)
 	runSweeps(p, r, "C04.17/pipe-loss-reaches-every-context", "RemovePipe visits every context: the loop that re-sends or cancels the requests carried by the lost pipe cannot be left early", reqPipeLossSweep)
 	crossCutting(p, r, "C04.X", "protocol/req")
 	importFrom(p, r, "C04.11/req-timers", "REQ deadline timers expire only the request they were armed for (shared with C18.3)", func(t *Report, rule string) { c18ReqTimers(p, t) }, "*")
